@@ -27,6 +27,13 @@ void verif_observe_f64(double v);
 // (native: printed in the trace).  Returns cond only when the check re-runs with that finding excluded,
 // so `verif_assume(!verif_known_region("F1", cond))` removes exactly the listed region and nothing else.
 int verif_known_region(char const* id, int cond);
+// equality "up to rounding": engine B in real mode decides EXACT equality over the reals (the algebraic claim);
+// bit-precise engines and the native replay use |a-b| <= 1e-7 * max(|scale|, 1) so that a real-mode counterexample only
+// reproduces natively when it is not a mere rounding artefact
+int verif_approx_eq(double a, double b, double scale);
+// assertion form: |a-b| <= tol * max(|scale|,1) with tol = 1e-7 in the solver (real mode included) and 0.9e-7 natively, so that a
+// solver counterexample violates the native check by a margin and reproduces
+int verif_close(double a, double b, double scale);
 // hook called in place of __cxa_throw (path ends afterwards)
 void verif_throw_hook(void);
 // replaces the message formatting + throw of CELER_VALIDATE/CELER_RUNTIME_THROW (see verif_celer.hh)
